@@ -941,6 +941,11 @@ func (g *GoFakeS3) initiateMultipartUpload(bucket, object string, w http.Respons
 		// would have the key "" that no request can name.
 		return ErrorInvalidArgument("key", object, "A multipart upload needs the key of an object.")
 	}
+	if len(object) > KeySizeLimit {
+		// (the same limit as for every other way of creating an object)
+		return ResourceError(ErrKeyTooLong, object)
+	}
+
 	uploadID, err := g.uploader.CreateMultipartUpload(bucket, object, meta)
 	if err != nil {
 		return err
